@@ -282,10 +282,11 @@ class Fn:
             alert = self.alert_of(st.body[0].exc)
             if left.endswith(".verify_data") and alert is not None:
                 src = self.mac_source(right, st)
-                return self.emit(st, cond, {"k": "verifyFinished", "alert": alert, "expected": src, "left": left})
+                return self.emit(st, cond, {"k": "verifyFinished", "alert": alert, "expected": src, "left": left,
+                                            "test": dotted(t)})
             if left == "binder" and right == "expected_binder" and alert is not None:
                 src = self.mac_source(right, st)
-                return self.emit(st, cond, {"k": "verifyBinder", "alert": alert, "expected": src})
+                return self.emit(st, cond, {"k": "verifyBinder", "alert": alert, "expected": src, "test": dotted(t)})
         self.calls(t, cond, caught)
         name = self.new_test(st, dotted(t))
         self.walk(st.body, cond + [(name, True)], caught)
@@ -753,6 +754,11 @@ def extract(path):
             if st["act"]["k"] == "verifyFinished":
                 flow.append((f"finished.{fn}.received", st["act"]["left"]))
                 flow.append((f"finished.{fn}.expected", st["act"]["expected"]))
+                # the comparison itself: Python `!=` on bytes = exact equality, length included
+                flow.append((f"finished.{fn}.refuse_if", st["act"]["test"]))
+            if st["act"]["k"] == "verifyBinder":
+                flow.append((f"binder.{fn}.expected", st["act"]["expected"]))
+                flow.append((f"binder.{fn}.refuse_if", st["act"]["test"]))
     ks = next(n for n in mod.body if isinstance(n, ast.ClassDef) and n.name == "KeySchedule")
     for m in ks.body:
         if isinstance(m, ast.FunctionDef) and m.name in ("certificate_verify_data", "finished_verify_data",
